@@ -12,6 +12,118 @@ Ltac inv_ok :=
   | H : Ok _ = Err _ |- _ => discriminate H
   end.
 
+(* side conditions of the Moreau theorem, on top of [wf]:
+   - classes without a proximal (Sum, InfimalConvolution, RightVectorMult, QuadraticForm) and the
+     sort-based l1-ball projection (LpNorm(inf) / IndicatorLpUnitBall(1), validated by the
+     correspondence and probes only) are excluded -- for the former the premise "both proximals exist"
+     is false anyway;
+   - a DefaultConvexConjugate node must not wrap a functional flagged linear (the flag of the
+     default conjugate is then wrong: the conjugate of <b, .> is an indicator);
+   - a reflection f(s .) with s < 0 must not sit on a functional whose conjugate is flagged linear
+     (the library then builds a LeftScalarMult with a negative scalar, whose proximal raises). *)
+Fixpoint D (e : fxR) : Prop :=
+  match e with
+  | FLp Pinf | FIndBall P1 | FSum _ _ | FInfConv _ _ | FRightVec _ _ | FQuadS _ _ _ => False
+  | FLp _ | FIndBall _ | FL2Sq | FConst _ | FIndZero _ | FHuber _ => True
+  | FLeft _ f | FScalarSum f _ | FTransl f _ | FQuadPert f _ _ _ | FBreg f => D f
+  | FRight s f => (s < 0 -> forall w f', @cconj R _ w f = Ok f' -> is_linear f' = false) /\ D f
+  | FDefConj f => is_linear f = false /\ D f
+  | FSep2 _ f g => D f /\ D g
+  end.
+
+(* what the proximal form of the linear-flag soundness needs of a tree *)
+Fixpoint lwf (n : nat) (e : fxR) : Prop :=
+  match e with
+  | FLeft _ f | FRight _ f | FScalarSum f _ | FBreg f => lwf n f
+  | FQuadPert f a u c => length u = n /\ lwf n f /\ (is_linear f = true -> a = 0 -> c = 0)
+  | FDefConj f => is_linear f = false
+  | FSep2 k f g => (k <= n)%nat /\ lwf k f /\ lwf (n - k) g
+  | _ => True
+  end.
+
+Lemma wf_D_lwf e : forall n, wf n e -> D e -> lwf n e.
+Proof.
+  fxind e; intros n Hwf HD; cbn [wf D lwf] in *; auto; try tauto.
+  - destruct Hwf; eauto.
+  - destruct Hwf, HD; eauto.
+  - destruct Hwf as (? & ? & ? & ?). repeat split; eauto.
+  - destruct Hwf as (? & ? & ?), HD. repeat split; eauto.
+Qed.
+
+Lemma lwf_mkLeft n s g : lwf n (mkLeft s g) <-> lwf n g.
+Proof. destruct g; reflexivity. Qed.
+Lemma lwf_mkRight n s g : lwf n (mkRight s g) <-> lwf n g.
+Proof. destruct g; reflexivity. Qed.
+Lemma lwf_mul_right n g a : lwf n (mul_right g a) <-> lwf n g.
+Proof. unfold mul_right. destruct (is_linear g); [apply lwf_mkLeft | apply lwf_mkRight]. Qed.
+Lemma lwf_mkTransl n g t : lwf n (mkTransl g t).
+Proof. destruct g; exact I. Qed.
+
+(* length constraints only (enough for the proximal to preserve lengths) *)
+Fixpoint lenwf (n : nat) (e : fxR) : Prop :=
+  match e with
+  | FLeft _ f | FRight _ f | FRightVec _ f | FScalarSum f _ | FDefConj f | FBreg f => lenwf n f
+  | FSum f g | FInfConv f g => lenwf n f /\ lenwf n g
+  | FTransl f t => length t = n /\ lenwf n f
+  | FQuadPert f _ u _ => length u = n /\ lenwf n f
+  | FSep2 k f g => (k <= n)%nat /\ lenwf k f /\ lenwf (n - k) g
+  | FQuadS _ b _ => match b with Some b' => length b' = n | None => True end
+  | _ => True
+  end.
+Lemma wf_lenwf e : forall n, wf n e -> lenwf n e.
+Proof. fxind e; intros n Hwf; cbn [wf lenwf] in *; auto; intuition eauto. Qed.
+Lemma lenwf_mkLeft n s g : lenwf n (mkLeft s g) <-> lenwf n g.
+Proof. destruct g; reflexivity. Qed.
+Lemma lenwf_mkRight n s g : lenwf n (mkRight s g) <-> lenwf n g.
+Proof. destruct g; reflexivity. Qed.
+Lemma lenwf_mul_right n g a : lenwf n (mul_right g a) <-> lenwf n g.
+Proof. unfold mul_right. destruct (is_linear g); [apply lenwf_mkLeft | apply lenwf_mkRight]. Qed.
+Lemma lenwf_mkTransl n g t : length t = n -> lenwf n g -> lenwf n (mkTransl g t).
+Proof.
+  intros Lt Hg. destruct g; cbn [mkTransl lenwf] in *; auto.
+  destruct Hg as [L1 Hg]. split; [rewrite vadd_length; congruence | assumption].
+Qed.
+
+(* convex_conj preserves the length constraints *)
+Lemma lenwf_conj e : forall n w e', lenwf n e -> length w = n -> @cconj R _ w e = Ok e' -> lenwf n e'.
+Proof.
+  fxind e; intros n w e' Hl Lw Hc; cbn [cconj lenwf] in *;
+    try (injection Hc as <-; cbn [lenwf]; auto; fail).
+  - (* FL2Sq *) injection Hc as <-. unfold rmul. destruct (_ =? _)%num; exact I.
+  - (* FHuber *) injection Hc as <-. cbn [lenwf]. split; [unfold vconst; rewrite repeat_length; assumption | exact I].
+  - (* FQuadS *) destruct a as [a|], b as [b|]; try discriminate.
+    + destruct (a =? nzero)%num; [discriminate|]. injection Hc as <-. cbn [lenwf].
+      rewrite vscal_length, vadd_length; rewrite !vscal_length; congruence.
+    + destruct (a =? nzero)%num; [discriminate|]. injection Hc as <-. exact I.
+    + injection Hc as <-. cbn [mkTransl lenwf]. split; [assumption | exact I].
+  - (* FLeft *) destruct (s <=? nzero)%num; [discriminate|].
+    destruct (cconj w f) as [f'|] eqn:E; cbn [rbind] in Hc; [|discriminate]. injection Hc as <-.
+    apply lenwf_mul_right. unfold rmul. destruct (s =? nzero)%num; [exact I|]. apply lenwf_mkLeft. eauto.
+  - (* FRight *) destruct (cconj w f) as [f'|] eqn:E; cbn [rbind] in Hc; [|discriminate].
+    destruct (s =? nzero)%num; [discriminate|]. injection Hc as <-. apply lenwf_mul_right. eauto.
+  - (* FRightVec *) destruct (cconj w f) as [f'|] eqn:E; cbn [rbind] in Hc; [|discriminate].
+    injection Hc as <-. cbn [lenwf]. eauto.
+  - (* FScalarSum *) destruct (cconj w f) as [f'|] eqn:E; cbn [rbind] in Hc; [|discriminate].
+    injection Hc as <-. cbn [lenwf]. eauto.
+  - (* FTransl *) destruct Hl as [Lt Hl]. destruct (cconj w f) as [f'|] eqn:E; cbn [rbind] in Hc; [|discriminate].
+    injection Hc as <-. cbn [lenwf]. split; eauto.
+  - (* FQuadPert *) destruct Hl as [Lu Hl]. destruct (a =? nzero)%num.
+    + destruct (cconj w f) as [f'|] eqn:E; cbn [rbind] in Hc; [|discriminate].
+      destruct (c =? nzero)%num; injection Hc as <-; cbn [lenwf]; apply lenwf_mkTransl; eauto.
+    + injection Hc as <-. cbn [lenwf]. split; assumption.
+  - (* FInfConv *) destruct Hl as [H1 H2].
+    destruct (cconj w f) as [f'|] eqn:E1; cbn [rbind] in Hc; [|discriminate].
+    destruct (cconj w g) as [g'|] eqn:E2; cbn [rbind] in Hc; [|discriminate].
+    injection Hc as <-. cbn [lenwf]. split; eauto.
+  - (* FBreg *) eauto.
+  - (* FSep2 *) destruct Hl as (Hk & H1 & H2).
+    destruct (cconj (firstn k w) f) as [f'|] eqn:E1; cbn [rbind] in Hc; [|discriminate].
+    destruct (cconj (skipn k w) g) as [g'|] eqn:E2; cbn [rbind] in Hc; [|discriminate].
+    injection Hc as <-. cbn [lenwf]. repeat split; [assumption| |].
+    + eapply IHf; [exact H1| |exact E1]. rewrite firstn_length; lia.
+    + eapply IHg; [exact H2| |exact E2]. rewrite skipn_length; lia.
+Qed.
+
 Section R.
 Variable sqrtf : R -> R.
 Notation prx := (@prox R _ sqrtf).
@@ -57,9 +169,9 @@ Proof.
 Qed.
 
 Lemma prox_length e : forall n w sigma x p,
-  wf n e -> length x = n -> prx e w sigma x = Ok p -> length p = n.
+  lenwf n e -> length x = n -> prx e w sigma x = Ok p -> length p = n.
 Proof.
-  fxind e; intros n w sigma x r Hwf Lx Hp; cbn [prox wf] in *.
+  fxind e; intros n w sigma x r Hwf Lx Hp; cbn [prox lenwf] in *.
   - destruct p; [| |destruct (proj_l1 x sigma) as [q|] eqn:E; cbn [rbind] in Hp]; inv_ok.
     + rewrite map_length; congruence.
     + rewrite prox_l2_length; congruence.
@@ -74,16 +186,16 @@ Proof.
   - inv_ok. rewrite map_length; congruence.
   - inv_ok. rewrite map_length; congruence.
   - discriminate.
-  - destruct Hwf as [Hs Hwf]. destruct (s <? nzero)%num; [discriminate|].
+  - destruct (s <? nzero)%num; [discriminate|].
     destruct (s =? nzero)%num; [inv_ok; congruence|]. eauto.
-  - destruct Hwf as [Hs Hwf]. eapply arg_scaling_length; [|exact Lx|exact Hp]. intros; eauto.
+  - eapply arg_scaling_length; [|exact Lx|exact Hp]. intros; eauto.
   - discriminate.
   - discriminate.
   - eauto.
   - destruct Hwf as [Lt Hwf]. destruct (prx f w sigma (vsub x t)) as [q|] eqn:E; cbn [rbind] in Hp; inv_ok.
     assert (length q = length t) by (rewrite Lt; eapply IHf; [exact Hwf| |exact E]; rewrite vsub_length; congruence).
     rewrite vadd_length; congruence.
-  - destruct Hwf as (Ha & Lu & Hwf & _). destruct (a <? nzero)%num; [discriminate|].
+  - destruct Hwf as (Lu & Hwf). destruct (a <? nzero)%num; [discriminate|].
     match type of Hp with context [arg_scaling ?P ?C ?S ?X] => destruct (arg_scaling P C S X) as [q|] eqn:E end;
       cbn [rbind] in Hp; inv_ok.
     rewrite vscal_length. eapply arg_scaling_length; [| |exact E].
